@@ -7,6 +7,7 @@ import (
 	"flag"
 	"fmt"
 	"os"
+	"os/exec"
 	"path/filepath"
 	"strings"
 	"testing"
@@ -38,6 +39,10 @@ type WorkerViolation struct {
 	Replay  string `json:"replay"`
 	Steps   int    `json:"steps"`
 	Repro   bool   `json:"repro"`
+	// Flaky "k/n": the minimised plan did not reproduce exactly; the unshrunk
+	// plan showed the violation in k of n replays
+	Flaky string `json:"flaky,omitempty"`
+	How   string `json:"how,omitempty"`
 }
 
 // WorkerResult is what a worker process reports to the runner.
@@ -80,6 +85,39 @@ func writeReplay(dir string, plan Plan) string {
 	b, _ := json.MarshalIndent(plan, "", " ")
 	os.WriteFile(p, b, 0o644)
 	return p
+}
+
+// freshProc executes a plan in a process of its own (this test binary, replay
+// mode), so that nothing an earlier run left in process memory takes part.
+func freshProc(pl Plan) *RunResult {
+	res := &RunResult{Plan: pl}
+	dir, err := os.MkdirTemp(filepath.Dir(*fOut), "fresh")
+	if err != nil {
+		return res
+	}
+	defer os.RemoveAll(dir)
+	pl.Attempts = 0
+	b, _ := json.Marshal(pl)
+	pf, of := filepath.Join(dir, "plan.json"), filepath.Join(dir, "out.json")
+	if os.WriteFile(pf, b, 0o644) != nil {
+		return res
+	}
+	cmd := exec.Command(os.Args[0], "-test.run", "^TestSim$", "-test.timeout", "0", "-sim.replay", pf, "-sim.out", of)
+	cmd.Env = os.Environ()
+	cmd.Run()
+	ob, err := os.ReadFile(of)
+	if err != nil {
+		return res
+	}
+	var out struct {
+		Digest string      `json:"digest"`
+		Viols  []Violation `json:"viols"`
+	}
+	if json.Unmarshal(ob, &out) != nil {
+		return res
+	}
+	res.Digest, res.Violations = out.Digest, out.Viols
+	return res
 }
 
 func TestSim(t *testing.T) {
@@ -143,16 +181,59 @@ func TestSim(t *testing.T) {
 			}
 			plan.Expect = sig
 			plan.Detail = v.Detail
-			exec := func(pl Plan) *RunResult { return p.replay(t, pl, false) }
-			min, mres := shrink(plan, sig, exec, *fShrink)
+			inProc := func(pl Plan) *RunResult { return p.replay(t, pl, false) }
+			min, mres := shrink(plan, sig, inProc, *fShrink)
 			wv := WorkerViolation{Sig: sig, Prop: v.Prop, Detail: v.Detail, RunSeed: rs, Steps: len(min.Steps)}
+			accept := func(pl Plan, r *RunResult, how string) {
+				min = pl
+				min.Digest = r.Digest
+				min.Detail = hasSig(r.Violations, sig).Detail
+				wv.Detail, wv.Steps, wv.Repro, wv.How = min.Detail, len(pl.Steps), true, how
+			}
 			if mres != nil && hasSig(mres.Violations, sig) != nil {
-				min.Digest = mres.Digest
-				min.Detail = hasSig(mres.Violations, sig).Detail
-				wv.Detail = min.Detail
-				// replay once more: must reproduce exactly
-				again := p.replay(t, min, false)
-				wv.Repro = hasSig(again.Violations, sig) != nil && again.Digest == mres.Digest
+				// the minimised plan must reproduce exactly: once more here, and
+				// in a process of its own (a replay file is used in a fresh one)
+				again := inProc(min)
+				fresh := freshProc(min)
+				if hasSig(again.Violations, sig) != nil && again.Digest == mres.Digest && hasSig(fresh.Violations, sig) != nil && fresh.Digest == mres.Digest {
+					accept(min, mres, "exact")
+				}
+			}
+			if !wv.Repro {
+				// Either this tree keeps state across simulated runs (a package-
+				// level cache or pool: what an earlier run of this worker left
+				// behind took part), or its behaviour is not a function of the
+				// schedule. Minimise again, every candidate in a process of its own.
+				budget := *fShrink
+				if budget > 150 {
+					budget = 150
+				}
+				min2, mres2 := shrink(plan, sig, freshProc, budget)
+				if mres2 != nil && hasSig(mres2.Violations, sig) != nil {
+					if again := freshProc(min2); hasSig(again.Violations, sig) != nil && again.Digest == mres2.Digest {
+						accept(min2, mres2, "exact in a fresh process (state left by earlier runs of the worker process took part in the first observation)")
+						// hidden state is seldom a function of the schedule alone
+						min.Attempts = 16
+					}
+				}
+			}
+			if !wv.Repro {
+				// not a function of the schedule: the observation is real all
+				// the same; replay the unshrunk plan a few times, fresh processes
+				const n = 24
+				k := 0
+				var last *RunResult
+				for i := 0; i < n; i++ {
+					if r := freshProc(plan); hasSig(r.Violations, sig) != nil {
+						k++
+						last = r
+					}
+				}
+				if k > 0 {
+					accept(plan, last, fmt.Sprintf("in %d of %d replays of the unshrunk plan", k, n))
+					min.Digest, min.Attempts = "", 2*n
+					wv.Flaky = fmt.Sprintf("%d/%d", k, n)
+				}
 			}
 			wv.Replay = writeReplay(*fReplayDir, min)
 			res.Violations = append(res.Violations, wv)
@@ -213,6 +294,9 @@ func doReplay(t *testing.T) {
 		t.Fatalf("unknown property %s", plan.Prop)
 	}
 	rr := p.replay(t, plan, *fTrace)
+	for i := 1; i < plan.Attempts && hasSig(rr.Violations, plan.Expect) == nil; i++ {
+		rr = p.replay(t, plan, *fTrace)
+	}
 	if *fTrace {
 		for _, l := range rr.Trace {
 			fmt.Println(l)
@@ -225,6 +309,7 @@ func doReplay(t *testing.T) {
 		sigs = append(sigs, v.Sig())
 	}
 	out["violations"] = sigs
+	out["viols"] = rr.Violations
 	if got != nil {
 		out["detail"] = got.Detail
 	}
